@@ -31,7 +31,7 @@ class Callable(object):
                 if has:
                     D.setdefault(n, dec(v))
         self.ns = {'__name__': '__kvstub__', '_CALLS': [], '_D': D}
-        sig = spec_src(spec, self_first=(kind in ('method', 'instance', 'classmethod', 'classmethod_via_instance', 'method_of_falsy_instance', 'instance_with_name')))
+        sig = spec_src(spec, self_first=(kind in ('method', 'instance', 'classmethod', 'classmethod_via_instance', 'method_of_falsy_instance', 'instance_with_name', 'instance_with_args')))
         if kind in ('method', 'method_of_falsy_instance'):
             # (an instance that is "empty" - it has __len__() == 0 - is still an instance)
             extra = '    def __len__(self):\n        return 0\n' if kind == 'method_of_falsy_instance' else ''
@@ -42,7 +42,7 @@ class Callable(object):
             src = 'class C(object):\n    @staticmethod\n    def __call__(%s):\n        _CALLS.append(1)\n' % sig
             exec(src, self.ns)
             self.obj = self.ns['C']()
-        elif kind in ('instance', 'instance_with_name'):
+        elif kind in ('instance', 'instance_with_name', 'instance_with_args'):
             src = 'class C(object):\n    def __call__(%s):\n        _CALLS.append(1)\n' % sig
             exec(src, self.ns)
             self.obj = self.ns['C']()
@@ -50,6 +50,11 @@ class Callable(object):
                 # what functools.update_wrapper(self, func) does to a class-based decorator object
                 self.obj.__name__ = 'wrapped_name'
                 self.obj.__doc__ = 'doc'
+            if kind == 'instance_with_args':
+                # attributes named like a functools.partial's, on something that is not one (every exception has .args)
+                self.obj.args = (1, 2)
+                if spec['kw']:
+                    self.obj.keywords = {'zz': 1}
         elif kind in ('classmethod', 'classmethod_via_instance'):
             src = 'class C(object):\n    @classmethod\n    def m(%s):\n        _CALLS.append(1)\n' % sig
             exec(src, self.ns)
@@ -121,7 +126,7 @@ VALS = [1, 'a', None, 2.5, (1, 2)]
 def gen_case(rng, prop='C19'):
     kind = rng.choice(['func', 'func', 'method', 'instance', 'func', 'func', 'method', 'instance',
                        'classmethod', 'classmethod_via_instance', 'staticmethod', 'wrapped', 'async', 'generator', 'lambda',
-                       'method_of_falsy_instance', 'instance_with_name', 'instance_static_call'])
+                       'method_of_falsy_instance', 'instance_with_name', 'instance_static_call', 'instance_with_args'])
     # (a plain function may call its first parameter what validate/isvalid call theirs)
     spec = gen_spec(rng, hostile_names=(['func', 'kwds'] if kind == 'func' else None))
     case = {'spec': spec, 'kind': kind, 'seed': rng.randrange(1 << 30)}
@@ -199,7 +204,7 @@ def mechs(case, tgt, args, kwds):
     signature() pairs the fixed values with a parameter list that still contains 'self' (shifted by
     one), so a clash between a positionally fixed parameter and a keyword goes unnoticed.  The
     witness must show exactly that: Python rejects the call with "multiple values for argument"."""
-    if case['kind'] in ('method', 'instance', 'classmethod', 'classmethod_via_instance', 'method_of_falsy_instance', 'instance_with_name') and tgt.pa:
+    if case['kind'] in ('method', 'instance', 'classmethod', 'classmethod_via_instance', 'method_of_falsy_instance', 'instance_with_name', 'instance_with_args') and tgt.pa:
         try:
             tgt.obj(*args, **kwds)
         except TypeError as e:
